@@ -1,4 +1,4 @@
-use crate::internal::{EpochTime, FormatTime, ToDateTime};
+use crate::internal::{FormatTime, ToDateTime};
 use crate::log::tag::Tag;
 use crate::log::tag_list::TagList;
 use crate::log::tag_value::TagValue;
@@ -33,7 +33,12 @@ impl LogEvent {
     pub fn write_jsonl(&self, f: &mut impl Write) -> Result<(), std::io::Error> {
         // TODO: Constraint line length.
         // "time_ns":1681457536082810000,"time":"2023-04-14T00:32:16.082-07:00"
-        let time_ns = self.time.epoch_ns();
+        // Use u128 so events with times after the year 2554 (2^64 ns) get written, too.
+        let time_ns = self
+            .time
+            .duration_since(SystemTime::UNIX_EPOCH)
+            .unwrap_or_default()
+            .as_nanos();
         let dt = self.time.to_datetime();
         let year = dt.year;
         let month = dt.month;
